@@ -842,6 +842,10 @@ class Channel(ClosingContextManager):
         """
         while s:
             sent = self.send(s)
+            if sent == 0:
+                # send() reports a stream that is closed for writing by
+                # returning 0; retrying would loop forever
+                raise socket.error("Socket is closed")
             s = s[sent:]
         return None
 
@@ -863,6 +867,8 @@ class Channel(ClosingContextManager):
         """
         while s:
             sent = self.send_stderr(s)
+            if sent == 0:
+                raise socket.error("Socket is closed")
             s = s[sent:]
         return None
 
@@ -1252,6 +1258,8 @@ class Channel(ClosingContextManager):
         m.add_byte(cMSG_CHANNEL_EOF)
         m.add_int(self.remote_chanid)
         self.eof_sent = True
+        # wake up writers blocked on the send window: they can't proceed now
+        self.out_buffer_cv.notify_all()
         self._log(DEBUG, "EOF sent ({})".format(self._name))
         return m
 
